@@ -75,7 +75,8 @@ Definition prelude_prog (scans : list upath) (export : upath) (resize_flag : boo
 Inductive event :=
 | EProbe (p : path) (write : bool) (r : probe_result)
 | ERead (p : path) (off len : N) (r : option (list N))
-| EMut (o : op) (ok : bool).
+| EMut (o : op) (ok : bool)
+| EMkPartial (p made : path).     (* a failed create_dir_all p that had already created the ancestors up to [made] *)
 
 Definition op_eqb (a b : op) : bool :=
   match a, b with
@@ -133,6 +134,11 @@ Fixpoint walk (pg : prog) (evs : list event) (n : nat) : walk_result :=
       | [] => WCut
       | [EMut o' true] => if op_eqb o o' then walk (k true) [] (S n) else if op_prefix o' o then WCut else WMismatch n
       | EMut o' ok :: rest => if (if ok then op_eqb o o' else op_same_target o o') then walk (k ok) rest (S n) else WMismatch n
+      | EMkPartial p' made :: rest =>
+          match o with
+          | MkdirAll p => if path_eqb p p' && path_prefix made p then walk (k false) rest (S n) else WMismatch n
+          | _ => WMismatch n
+          end
       | _ => WMismatch n
       end
   end.
